@@ -34,6 +34,7 @@ use crate::modules::{Module, ModuleResult};
 use crate::task::parse_file;
 use crate::vars::builtin::Builtins;
 
+use std::cell::Cell;
 use std::fs::read_to_string;
 use std::path::Path;
 
@@ -42,6 +43,14 @@ use minijinja::{Value, context};
 use schemars::schema::RootSchema;
 use serde::Deserialize;
 use serde_yaml::Value as YamlValue;
+
+/// Includes may nest, but a file that (directly or not) includes itself would recurse until the
+/// stack overflows: stop with an error well before that.
+const MAX_INCLUDE_DEPTH: usize = 32;
+
+thread_local! {
+    static INCLUDE_DEPTH: Cell<usize> = const { Cell::new(0) };
+}
 
 #[derive(Debug)]
 pub struct Include;
@@ -77,7 +86,19 @@ impl Module for Include {
                 let include_vars = context! {rash => &include_builtins, ..vars};
 
                 trace!("Vars: {include_vars}");
-                Context::new(tasks, include_vars.clone()).exec()?;
+                let depth = INCLUDE_DEPTH.with(Cell::get);
+                if depth >= MAX_INCLUDE_DEPTH {
+                    return Err(Error::new(
+                        ErrorKind::InvalidData,
+                        format!(
+                            "include nested more than {MAX_INCLUDE_DEPTH} levels deep (recursive include?): {script_file}"
+                        ),
+                    ));
+                }
+                INCLUDE_DEPTH.with(|d| d.set(depth + 1));
+                let result = Context::new(tasks, include_vars.clone()).exec();
+                INCLUDE_DEPTH.with(|d| d.set(depth));
+                result?;
 
                 let new_vars = context! {rash => &builtins, ..include_vars};
                 Ok((ModuleResult::new(false, None, None), new_vars))
